@@ -26,7 +26,8 @@ pub(super) struct K {
 
 pub(super) const CERTS: [K; 5] = [
     K { name: "K1{a.io,exp2000}", pem: CERT1, key: KEY1, names: &["a.io"], exp: Some(2000) },
-    K { name: "K2{a.io,exp3000}", pem: CERT2, key: KEY2, names: &["a.io"], exp: Some(3000) },
+    // (three certificates share "*.a.io" with distinct expirations: K2, K3, K4)
+    K { name: "K2{a.io,*.a.io,exp3000}", pem: CERT2, key: KEY2, names: &["a.io", "*.a.io"], exp: Some(3000) },
     K { name: "K3{*.a.io,exp2500}", pem: CERT3, key: KEY3, names: &["*.a.io"], exp: Some(2500) },
     K { name: "K4{b.a.io,*.a.io,exp1000}", pem: CERT4, key: KEY4, names: &["b.a.io", "*.a.io"], exp: Some(1000) },
     K { name: "K5{own names}", pem: CERT5, key: KEY5, names: &[], exp: None },
